@@ -27,7 +27,7 @@ EXPLANATION = ("should_notify / set_dev_notify are path-enumerated into guarded 
                "protocol is a typestate automaton run as an edge-sensitive forward dataflow over the inlined MIR of every "
                "driver entry point, with queue objects identified by field path and queue indices recovered from the "
                "constructors.")
-FLOORS = {'suppression_drivers': {'*': 3, 'noalloc': 2}, 'decision_fns': 1, 'add_sites': {'*': 8, 'noalloc': 3}, 'notify_sites': {'*': 8, 'noalloc': 3}, 'entry_points': {'*': 150, 'noalloc': 75},
+FLOORS = {'suppression_drivers': {'*': 4, 'noalloc': 3}, 'decision_fns': 1, 'add_sites': {'*': 8, 'noalloc': 3}, 'notify_sites': {'*': 8, 'noalloc': 3}, 'entry_points': {'*': 150, 'noalloc': 75},
           'protocol_entry_points': {'*': 17, 'noalloc': 6}}
 
 
@@ -134,6 +134,11 @@ def n5_suppression_siblings(F, R, M, roles):
     if not sdn:
         # role by name-independent shape: queue method taking a bool that performs the only avail.flags store
         sdn = set(b['id'] for b in F.bodies.values() if b.get('impl_adt') in (M.queue_adt, M.owning_adt) and b['name'] == 'set_dev_notify')
+    # forwarding wrappers of the owning queue (its set_dev_notify passes its flag on to the inner queue's)
+    for b in F.bodies.values():
+        if F.handwritten(b) and b.get('impl_adt') == M.owning_adt and 'bool' in b.get('sig', '') and \
+                any(bl['term']['k'] == 'call' and bl['term'].get('fn') in sdn for bl in b['blocks']):
+            sdn.add(b['id'])
     per = {}
     for b in F.bodies.values():
         if not F.handwritten(b) or b.get('impl_adt') in (M.queue_adt, M.owning_adt) or not b.get('impl_adt'):
